@@ -274,6 +274,18 @@ func init() {
 			{Stmts: []*Node{Def("cnt", Int(0)), Def("inc", Fn(nil, false, Set("cnt", nil, "+=", Int(1)), Ret(Id("cnt")))), Def("inc2", Call(Id("copy"), Id("inc"))),
 				Def("a", Call(Id("inc"))), Def("b", Call(Id("inc2"))), Def("c2", Id("cnt"))}},
 		}
+		// comparing function values: literals that mention a variable which is a global here and a captured variable elsewhere (one shared
+		// constant in one placement, a new closure per evaluation in the other); failing selector assignments through such a variable
+		fixed = append(fixed,
+			&Program{Stmts: []*Node{Def("g", Int(1)), Def("mk", Fn(nil, false, Ret(Fn(nil, false, Ret(Id("g")))))), Def("eq", Bin("==", Call(Id("mk")), Call(Id("mk")))),
+				Def("f", Call(Id("mk"))), Def("eq2", Bin("==", Id("f"), Id("f"))), Def("ne", Bin("!=", Id("f"), Id("f"))), Def("same", Bin("==", Arr(Id("f")), Arr(Id("f"))))}},
+			&Program{Stmts: []*Node{Def("g", Int(1)), Def("h", Fn(nil, false, Ret(Id("g")))), Def("k", Id("h")), Def("eq", Bin("==", Id("h"), Id("k"))), Def("ne", Bin("!=", Id("h"), Id("k")))}},
+			&Program{Stmts: []*Node{Def("t", Int(5)), Def("w", Fn(nil, false, Set("t", []*Node{DotKey("a")}, "=", Int(1)), Ret(Id("t")))), Def("r", Call(Id("w")))}},
+			&Program{Stmts: []*Node{Def("t", Str("s")), Def("w", Fn(nil, false, Set("t", []*Node{Int(0)}, "=", Int(1)), Ret(Id("t")))), Def("r", Call(Id("w")))}},
+			&Program{Stmts: []*Node{Def("t", Undef()), Def("w", Fn(nil, false, Set("t", []*Node{DotKey("a"), DotKey("b")}, "=", Int(1)), Ret(Id("t")))), Def("r", Call(Id("w")))}},
+			&Program{Stmts: []*Node{Def("t", Imm(Arr(Int(1)))), Def("w", Fn(nil, false, Set("t", []*Node{Int(0)}, "=", Int(1)), Ret(Id("t")))), Def("r", Call(Id("w")))}},
+			&Program{Stmts: []*Node{Def("t", Map([]string{"a"}, []*Node{Int(1)})), Def("w", Fn(nil, false, Set("t", []*Node{DotKey("a"), DotKey("b")}, "=", Int(1)), Ret(Id("t")))), Def("r", Call(Id("w")))}},
+		)
 		for _, d := range []int{1, 2, 3} {
 			for _, sp := range tailcallSpecials(d) {
 				fixed = append(fixed, &Program{Stmts: sp.Stmts})
